@@ -16,9 +16,10 @@ sys.path.insert(0, HERE)
 
 def main():
     seed = int(sys.argv[1])
+    n_sdl = int(sys.argv[2]) if len(sys.argv) > 2 else 7
     from sim.hist import pool as _pool
     from sim.hist.c12 import OPTS, opt_kwargs
-    pool = _pool.build_pool(seed)
+    pool = _pool.build_pool(seed, n_sdl=n_sdl)
     table = {}
     for i, entry in enumerate(pool):
         for j, opt in enumerate(OPTS):
